@@ -29,6 +29,7 @@ package controller
 //@   requires mapInv(f) && fans.fanWF(f.fan) && util.inInt32(target)
 //@   atcall[C12.write C01 C05] SetPwm: exists s :: nearestIn(distinct(f), s, target) && pwm == f.pwmMap[s]
 //@   ensures[last] f.lastSetPwm != nil && *f.lastSetPwm == target
+//@   ensures[C12.others C01 C05] forall o int :: o != ref(f.fan) ==> pwmWrites[o] == old(pwmWrites)[o] && lastPwm[o] == old(lastPwm)[o]
 //@   ensures[C12.once C01 C05] pwmWrites[f.fan] == old(pwmWrites)[f.fan] || (pwmWrites[f.fan] == old(pwmWrites)[f.fan] + 1 && exists s :: nearestIn(distinct(f), s, target) && lastPwm[f.fan] == f.pwmMap[s])
 //@   modifies f.lastSetPwm, pwmWrites, lastPwm, fileInt, procWorld, f.fan.(*fans.HwMonFan).Pwm, f.fan.(*fans.FileFan).Pwm, f.fan.(*fans.CmdFan).Pwm
 
@@ -75,7 +76,31 @@ package controller
 //@   ensures[C02.raise]  f.minPwmOffset > old(f.minPwmOffset) ==> err == nil && old(f.lastSetPwm) != nil && target > old(*f.lastSetPwm) && floorOf(f) == old(floorOf(f)) + 1
 //@   ensures[nowrite C01 C02 C05 C10] pwmWrites == old(pwmWrites)
 //@   modifies f.minPwmOffset, f.stats.MinPwmOffset, f.stats.IncreasedMinPwmCount, f.stats.UnexpectedPwmValueCount
-//@   modifies f.fan.(*fans.HwMonFan).MinPwm, f.fan.(*fans.HwMonFan).RpmMovingAvg, f.fan.(*fans.HwMonFan).Pwm
+//@   modifies f.fan.(*fans.HwMonFan).RpmMovingAvg, f.fan.(*fans.HwMonFan).Pwm
+//@   modifies f.fan.(*fans.FileFan).Rpm, f.fan.(*fans.FileFan).Pwm, f.fan.(*fans.CmdFan).Rpm, f.fan.(*fans.CmdFan).Pwm
+//@   modifies f.controlLoop.(*control_loop.DirectControlLoop).lastTime
+//@   modifies each(*curves.LinearSpeedCurve).Value, each(*curves.FunctionSpeedCurve).Value, each(*curves.PidSpeedCurve).Value
+//@   modifies each(*util.PidLoop).integral, each(*util.PidLoop).error, each(*util.PidLoop).lastTime, procWorld
+
+//@ func trySetManualPwm
+//@   props C05
+//@   requires fans.fanWF(fan)
+//@   ensures[C05.nopwm C01] pwmWrites == old(pwmWrites)
+//@   modifies modeWrites, lastMode, fileInt
+
+//@ func (*DefaultFanController).UpdateFanSpeed
+//@   props C01 C02 C05
+//@   split f.fan
+//@   safety C09
+//@   requires ctrlInv(f) && mapInv(f)
+//@   ensures[C01.request C02 C05] result == nil && f.lastSetPwm != old(f.lastSetPwm) ==> f.lastSetPwm != nil && old(fans.fanMin(f.fan)) <= *f.lastSetPwm && *f.lastSetPwm <= old(fans.fanMax(f.fan))
+//@   ensures[C01.write] pwmWrites[f.fan] == old(pwmWrites)[f.fan] || (pwmWrites[f.fan] == old(pwmWrites)[f.fan] + 1 && f.lastSetPwm != nil && old(fans.fanMin(f.fan)) <= *f.lastSetPwm && *f.lastSetPwm <= old(fans.fanMax(f.fan)) && exists s :: nearestIn(distinct(f), s, *f.lastSetPwm) && lastPwm[f.fan] == f.pwmMap[s])
+//@   ensures[C01.byte]  (forall k :: k in f.pwmMap ==> 0 <= f.pwmMap[k] && f.pwmMap[k] <= 255) && pwmWrites[f.fan] != old(pwmWrites)[f.fan] ==> 0 <= lastPwm[f.fan] && lastPwm[f.fan] <= 255
+//@   ensures[C01.others] forall o int :: o != ref(f.fan) ==> pwmWrites[o] == old(pwmWrites)[o]
+//@   ensures[C01.inv C02 C05] ctrlInv(f) && mapInv(f)
+//@   modifies f.lastSetPwm, pwmWrites, lastPwm, modeWrites, lastMode, fileInt
+//@   modifies f.minPwmOffset, f.stats.MinPwmOffset, f.stats.IncreasedMinPwmCount, f.stats.UnexpectedPwmValueCount
+//@   modifies f.fan.(*fans.HwMonFan).RpmMovingAvg, f.fan.(*fans.HwMonFan).Pwm
 //@   modifies f.fan.(*fans.FileFan).Rpm, f.fan.(*fans.FileFan).Pwm, f.fan.(*fans.CmdFan).Rpm, f.fan.(*fans.CmdFan).Pwm
 //@   modifies f.controlLoop.(*control_loop.DirectControlLoop).lastTime
 //@   modifies each(*curves.LinearSpeedCurve).Value, each(*curves.FunctionSpeedCurve).Value, each(*curves.PidSpeedCurve).Value
